@@ -130,6 +130,7 @@ type c04Large struct {
 	N       int   `json:"n"`
 	Pos     []int `json:"pos"`      // positions of present docs (index into corpus docs, in order)
 	AbsKind int   `json:"abs_kind"` // 0: absent with MID inside range & high RID; 1: absent far outside
+	Rev     bool  `json:"rev,omitempty"` // the present docs are taken from the corpus in reverse order (newest fraction first)
 }
 
 type c04Answer struct {
@@ -333,6 +334,9 @@ func c04Resolve(job c04Job) ([]c04ID, []string) {
 		at := map[int]c04Doc{}
 		for i, p := range job.Large.Pos {
 			at[p] = all[i%len(all)]
+			if job.Large.Rev {
+				at[p] = all[len(all)-1-i%len(all)]
+			}
 		}
 		for i := 0; i < job.Large.N; i++ {
 			if d, ok := at[i]; ok {
@@ -589,9 +593,21 @@ func TestVerifC04(t *testing.T) {
 							}
 						}
 					}
+					if k >= 2 { // present documents in different chunks of the request (a chunk is 1000 IDs)
+						spread := []int{0, 1000}
+						if k == 3 {
+							spread = append(spread, n-1)
+						}
+						places = append(places, spread)
+					}
 					for _, p := range places {
-						jobs = append(jobs, c04Job{Corpus: ci, Via: "grpc", Large: &c04Large{N: n, Pos: p, AbsKind: abs}, Now: now})
-						nLarge++
+						for _, rev := range []bool{false, true} {
+							if rev && k == 0 {
+								continue
+							}
+							jobs = append(jobs, c04Job{Corpus: ci, Via: "grpc", Large: &c04Large{N: n, Pos: p, AbsKind: abs, Rev: rev}, Now: now})
+							nLarge++
+						}
 					}
 				}
 			}
@@ -613,7 +629,7 @@ func TestVerifC04(t *testing.T) {
 	}
 	ev := r.Get("evaluations")
 	r.Finish(t, "model_checking",
-		fmt.Sprintf("11 corpora (one with a sealed fraction deleted after the fraction list of the requests was taken; sealed fractions have several 64-byte doc blocks; one corpus seals two multi-block fractions one after the other), built with the scaled block constants of the `small` overlay (4 IDs per block) (active / sealed / overlapping fractions / equal MIDs within one and across two ID blocks / a sealed fraction of recent documents in sparse minutes, which has a minute occupancy map; doc sizes 2..200 B); every list of <=%d distinct IDs over {present IDs} + {absent IDs at every border: (From-1), (From,minRID-1), (From,minRID+1), between, (To,maxRID+1), (To+1,0), 0, max}; hints {none,right,wrong(mixed),unknown}; via Fetcher.FetchDocs and streaming GrpcV1.Fetch; plus lists of 1001/1500/2500 IDs with 0..3 present documents at start/middle/chunk end/end. Stores live in worker subprocesses; a dying or hanging store is a violation after 3 reproductions. non-trivial = a present document at a position > 0 or a large list", maxLen),
+		fmt.Sprintf("11 corpora (one with a sealed fraction deleted after the fraction list of the requests was taken; sealed fractions have several 64-byte doc blocks; one corpus seals two multi-block fractions one after the other), built with the scaled block constants of the `small` overlay (4 IDs per block) (active / sealed / overlapping fractions / equal MIDs within one and across two ID blocks / a sealed fraction of recent documents in sparse minutes, which has a minute occupancy map; doc sizes 2..200 B); every list of <=%d distinct IDs over {present IDs} + {absent IDs at every border: (From-1), (From,minRID-1), (From,minRID+1), between, (To,maxRID+1), (To+1,0), 0, max}; hints {none,right,wrong(mixed),unknown}; via Fetcher.FetchDocs and streaming GrpcV1.Fetch; plus lists of 1001/1500/2500 IDs with 0..3 present documents at start/middle/chunk end/end or spread over the chunks, taken from the oldest or from the newest fraction first. Stores live in worker subprocesses; a dying or hanging store is a violation after 3 reproductions. non-trivial = a present document at a position > 0 or a large list", maxLen),
 		map[string]any{
 			"states":                        len(c04Corpora),
 			"transitions":                   ev,
